@@ -28,6 +28,9 @@ def fill_in_map(circuit):
 
 
 class MapFiller(Visitor):
+    # Names that denote macro parameters in the body being visited.
+    hidden_names = ()
+
     ##
     # Visitor Methods
     #
@@ -92,6 +95,12 @@ class MapFiller(Visitor):
     def visit_NamedQubit(self, qubit):
         """Map this to a fundamental register and index and return it."""
         reg, index = qubit.resolve_qubit()
+        if reg.name in self.hidden_names:
+            # Inside this macro the register's name denotes a parameter, so
+            # the reference could not be written down (or rebuilt by name).
+            raise JaqalError(
+                f"Cannot fill in map aliases: a macro parameter hides register {reg.name}"
+            )
         return reg[index]
 
     def visit_Register(self, reg):
@@ -116,7 +125,11 @@ class MapFiller(Visitor):
         qubits which have type NamedQubit, so they are easily differentiated
         (unlike at the Jaqal level where they are both text identifiers).
         """
-        gate_block = self.visit(macro.body)
+        self.hidden_names = tuple(param.name for param in macro.parameters)
+        try:
+            gate_block = self.visit(macro.body)
+        finally:
+            self.hidden_names = ()
         sexpr = [
             "macro",
             macro.name,
